@@ -121,8 +121,11 @@ def main():
         kid = sys.argv[sys.argv.index("--keep") + 1]
         dst = os.path.join("/verif/seeded", kid)
         os.makedirs(dst, exist_ok=True)
-        shutil.copy(os.path.join(mdir, "demo_test.go"), dst)
-        shutil.copy(c.get("rebased_patch") or os.path.join(mdir, "patch.diff"), os.path.join(dst, "patch.diff"))
+        same = os.path.abspath(mdir) == os.path.abspath(dst)
+        if not same:
+            shutil.copy(os.path.join(mdir, "demo_test.go"), dst)
+        if c.get("rebased_patch") or not same:
+            shutil.copy(c.get("rebased_patch") or os.path.join(mdir, "patch.diff"), os.path.join(dst, "patch.diff"))
         notes = open(os.path.join(mdir, "notes.md")).read() if os.path.exists(os.path.join(mdir, "notes.md")) else ""
         head = subprocess.check_output(["git", "-C", "/repo", "log", "--format=%h", "-1"], text=True).strip()
         meta = {"id": kid, "breaks_property": props[0], "needs_to_manifest": notes.strip(),
